@@ -92,6 +92,7 @@ def resp_family(tier):
 # routing family (C02, C14): full in-process stack
 # ---------------------------------------------------------------------------------------------
 def routing_family(tier):
+    """C02, C14 (routing rig) and C07, C13 (control-plane rig): same stack, same trace spec."""
     sd = seed()
     key = "routing_%s_%s_%d" % (tree_hash(), tier, sd)
     cached = cache_get(key)
@@ -100,13 +101,11 @@ def routing_family(tier):
         return cached
     t0 = time.time()
     build_harness()
-    mc = None
-    from vlib import SPEC
-    if os.path.exists(os.path.join(SPEC, "Routing_MC.cfg")):
-        mc = tlc_model_check("routing", "Routing_MC.tla", "Routing_MC.cfg", workers=8, timeout=1500, xmx="8g", extra="")
+    mc = tlc_model_check("routing", "Routing_MC.tla", "Routing_MC.cfg", workers=8, timeout=1500, xmx="8g", extra="")
+    mc_cp = tlc_model_check("controlplane", "ControlPlane.tla", "ControlPlane_MC_%s.cfg" % tier, workers=8, timeout=3000, xmx="8g", extra="")
     d = fresh_dir(os.path.join(WORK, "routing_" + tier))
-    parts = 12 if tier == "quick" else 14
-    per = 3 if tier == "quick" else 40
+    parts = 8 if tier == "quick" else 10
+    per = 4 if tier == "quick" else 50
     cmds, files = [], []
     for p in range(parts):
         f = os.path.join(d, "runs_%02d.ndjson" % p)
@@ -114,9 +113,14 @@ def routing_family(tier):
         n = per if not allslots else 3
         cmds.append("%s routing-runs --out %s --count %d --seed %d%s" % (UVERIF, f, n, sd * 131 + p, allslots))
         files.append(f)
+    cparts = 6 if tier == "quick" else 8
+    for p in range(cparts):
+        f = os.path.join(d, "ctl_%02d.ndjson" % p)
+        cmds.append("%s ctl-runs --out %s --count %d --seed %d" % (UVERIF, f, 12 if tier == "quick" else 400, sd * 137 + p))
+        files.append(f)
     rc, out = _run_cmds(cmds, timeout=3300)
     if rc != 0:
-        raise ToolError("routing rig failed: " + out[-2000:])
+        raise ToolError("routing/ctl rig failed: " + out[-2000:])
     verdicts = validate_shards("Routing_Trace.tla", "Routing_Trace.cfg", files, jobs=14, timeout=3300)
     viols, events, skipped = [], 0, 0
     for v in verdicts:
@@ -129,31 +133,62 @@ def routing_family(tier):
             if lines is None:
                 lines = open(v["shard"]).read().splitlines()
             e = json.loads(lines[x["line"] - 1])
-            # the run's header (seed etc.)
             j = x["line"] - 1
             while j > 0 and json.loads(lines[j]).get("kind") != "reset":
                 j -= 1
-            viols.append({"mon": x["mon"], "case": e, "cls": e.get("phase", "?"), "reset": json.loads(lines[j])})
+            viols.append({"mon": x["mon"], "case": e, "cls": e.get("phase", e.get("kind", "?")), "reset": json.loads(lines[j])})
     kinds, phases = {}, {}
-    nontrivial = 0
-    samples = []
+    nt = {"C02": 0, "C14": 0, "C07": 0, "C13": 0}
+    cases = {"C02": 0, "C14": 0, "C07": 0, "C13": 0}
+    samples = {"C02": [], "C14": [], "C07": [], "C13": []}
     runs = 0
     for f in files:
+        mode, faulty, fault_list = "route", False, []
         with open(f) as fh:
             for line in fh:
                 e = json.loads(line)
-                kinds[e["kind"]] = kinds.get(e["kind"], 0) + 1
-                if e["kind"] == "reset":
+                k = e["kind"]
+                kinds[k] = kinds.get(k, 0) + 1
+                if k == "reset":
                     runs += 1
-                if e["kind"] in ("probe", "adv"):
+                    mode = e.get("mode", "route")
+                    faulty, fault_list = False, []
+                    if mode == "ctl":
+                        cases["C07"] += 1
+                    if mode == "recover":
+                        cases["C13"] += 1
+                elif k == "probe":
+                    cases["C02"] += 1
                     phases[e["phase"]] = phases.get(e["phase"], 0) + 1
-                    if e["phase"] != "stable" or (e["kind"] == "probe" and e["outcome"]["redirects"] > 0):
-                        nontrivial += 1
-                    if len(samples) < 3 and e["phase"] == "running":
-                        samples.append(e)
-    res = {"tier": tier, "seed": sd, "wall_s": time.time() - t0, "cases": kinds.get("probe", 0) + kinds.get("adv", 0),
-           "runs": runs, "kinds": kinds, "phases": phases, "nontrivial": nontrivial, "skipped_unsynced": skipped,
-           "violations": viols[:300], "violation_count": len(viols), "samples": samples, "mc": mc}
+                    if e["phase"] != "stable" or e["outcome"]["redirects"] > 0:
+                        nt["C02"] += 1
+                    if len(samples["C02"]) < 2 and e["phase"] == "running":
+                        samples["C02"].append(e)
+                elif k == "adv":
+                    cases["C14"] += 1
+                    if e["phase"] != "stable":
+                        nt["C14"] += 1
+                    if len(samples["C14"]) < 1 and e["phase"] == "running":
+                        samples["C14"].append(e)
+                elif k in ("call", "bcall") and e.get("fault") not in ("", "None", None):
+                    faulty = True
+                    if len(fault_list) < 6:
+                        fault_list.append({"kind": k, "fault": e.get("fault"), "what": e.get("cmd", [None, None])[1] if k == "call" else e.get("call")})
+                elif k in ("crash", "restart"):
+                    faulty = True
+                elif k == "converged_check":
+                    if mode == "ctl" and faulty:
+                        nt["C07"] += 1
+                        if len(samples["C07"]) < 2:
+                            samples["C07"].append({"faults": fault_list, "rounds": e["rounds"]})
+                elif k == "recover":
+                    nt["C13"] += 1
+                    if len(samples["C13"]) < 2:
+                        samples["C13"].append(e)
+    res = {"tier": tier, "seed": sd, "wall_s": time.time() - t0, "cases": sum(cases.values()), "cases_by_prop": cases,
+           "runs": runs, "kinds": kinds, "phases": phases, "nontrivial": sum(nt.values()), "nontrivial_by_prop": nt,
+           "skipped_unsynced": skipped, "samples_by_prop": samples,
+           "violations": viols[:300], "violation_count": len(viols), "samples": samples["C02"], "mc": mc, "mc_cp": mc_cp}
     for f in files:
         os.remove(f)
     cache_put(key, res)
